@@ -426,6 +426,130 @@ theorem restart_has_no_authority (c : ObjCfg) (old : Obj) (keep : Bool) :
 example : restart exCfg { paused := false, pauses := 3, resumes := 4, execs := 9, stash := 2 } true
     = { paused := true, pauses := 0, resumes := 0, execs := 0, stash := 2 } := by decide
 
+/-- **runtime_created_object_settles** ("is active on exactly one endpoint", for objects that come into being while the cluster runs:
+    comments, downtimes, API-created hosts …).  From ANY state of two members that hold a connection to each other — whatever
+    authority runs, link changes and work happened before; no memory of an earlier run enters a decision — an active run-once object
+    created at runtime on both is active on NEITHER right after the creation (no authority decision has been taken for it), and after
+    the next authority run on each it is active on exactly one, with one `Resume()` call and no `Pause()` call in total. -/
+theorem runtime_created_object_settles (nA nB : Name) (hne : nA ≠ nB) (c : ObjCfg) (ht : touched c = true) (p : Pair)
+    (hA : p.a.sees = true) (hB : p.b.sees = true) (nowA nowB : Int) :
+    let p0 := step .pair nA nB c (step .pair nA nB c p (.create .A)) (.create .B)
+    let p1 := step .pair nA nB c (step .pair nA nB c p0 (.upd .A nowA)) (.upd .B nowB)
+    (p0.a.obj.paused = true ∧ p0.b.obj.paused = true) ∧
+    p1.a.obj.paused = !p1.b.obj.paused ∧
+    p1.a.obj.resumes + p1.b.obj.resumes = 1 ∧ p1.a.obj.pauses = 0 ∧ p1.b.obj.pauses = 0 := by
+  have hx := own_xor nA nB c.name hne
+  have ht' := ht
+  simp only [touched, Bool.and_eq_true] at ht'
+  have hf : fresh c = { paused := true, pauses := 0, resumes := 0 } := by simp [fresh, ht'.1, ht'.2]
+  intro p0 p1
+  have e0a : p0.a = { p.a with obj := fresh c } := by simp [p0, step, Ev.side, stepHalf, created]
+  have e0b : p0.b = { p.b with obj := fresh c } := by simp [p0, step, Ev.side, stepHalf, created]
+  have e1a : p1.a.obj = setAuthority (fresh c) (own nA nB c.name .A) := by
+    simp only [p1, step, Ev.side, stepHalf, authority_abs .pair nA nB hne .A _ _ _ c.name, e0a]
+    simp [Half.sees] at hA ⊢
+    simp [absVerdict, applyVerdict, ht, hA]
+  have e1b : p1.b.obj = setAuthority (fresh c) (own nA nB c.name .B) := by
+    simp only [p1, step, Ev.side, stepHalf, authority_abs .pair nA nB hne .B _ _ _ c.name, e0b]
+    simp [Half.sees] at hB ⊢
+    simp [absVerdict, applyVerdict, ht, hB]
+  refine ⟨⟨by rw [e0a]; simp [hf], by rw [e0b]; simp [hf]⟩, ?_⟩
+  rw [e1a, e1b, hf, hx]
+  cases own nA nB c.name .B <;> simp [setAuthority]
+
+/-- **created_object_one_owner_general** (the n-member form of `runtime_created_object_settles`).  Any number of zone members that all
+    see each other: there is ONE member `o` of the zone such that, whichever member `self` runs `UpdateObjectAuthority` over an active
+    run-once object that was created at runtime — in whatever iteration order, at whatever time — the object ends up unpaused there iff
+    `self` is `o`, with one `Resume()` on `o`, none elsewhere and no `Pause()` anywhere; nothing of an object that had the name before
+    (`old`) enters. -/
+theorem created_object_one_owner_general (ms : List Name) (hne : ms ≠ []) (c : ObjCfg) (ht : touched c = true) :
+    ∃ o ∈ ms, ∀ self ∈ ms, ∀ (msS : List Name) (conn : Name → Bool) (start now : Int) (old : Obj),
+      msS.Perm ms → (∀ e ∈ ms, e ≠ self → conn e = true) →
+      let o' := applyVerdict c (created c) (authority (some msS) self conn start now c.name)
+      o'.paused = !(o == self) ∧ o'.pauses = 0 ∧ o'.resumes = (if o == self then 1 else 0) ∧
+      -- nothing of the object that had the name before (`old`) enters
+      o' = applyVerdict c (stepHalf .pair [] [] c .A { conns := [], start := 0, obj := old } (.create .A)).obj
+             (authority (some msS) self conn start now c.name) := by
+  obtain ⟨o, hom, ho⟩ := exactly_one_general ms hne c.name
+  refine ⟨o, hom, ?_⟩
+  intro self hself msS conn start now old hperm hconn
+  have hv := ho self hself msS conn start now hperm hconn
+  have ht' := ht
+  simp only [touched, Bool.and_eq_true] at ht'
+  have hf : created c = { paused := true, pauses := 0, resumes := 0 } := by simp [created, fresh, ht'.1, ht'.2]
+  simp only [hv, applyVerdict, ht, hf, stepHalf]
+  cases o == self <;> simp [setAuthority]
+
+example : ∃ o ∈ [[0x61], [0x62], [0x63]], ∀ self ∈ [[0x61], [0x62], [0x63]], ∀ (msS : List Name) (conn : Name → Bool)
+    (start now : Int) (old : Obj), msS.Perm [[0x61], [0x62], [0x63]] → (∀ e ∈ [[0x61], [0x62], [0x63]], e ≠ self → conn e = true) →
+    let o' := applyVerdict exCfg (created exCfg) (authority (some msS) self conn start now exCfg.name)
+    o'.paused = !(o == self) ∧ o'.pauses = 0 ∧ o'.resumes = (if o == self then 1 else 0) ∧
+    o' = applyVerdict exCfg (stepHalf .pair [] [] exCfg .A { conns := [], start := 0, obj := old } (.create .A)).obj
+           (authority (some msS) self conn start now exCfg.name) :=
+  created_object_one_owner_general _ (by decide) exCfg rfl
+
+
+/-- **pending_notification_requested_once** ("a paused endpoint [does not send] notifications for that object", for the notifications a
+    checkable requests itself: suppressed-notifications timer, acknowledgement, hard state change of a processed result).  A member
+    that is paused for the checkable requests nothing and changes nothing; of two settled members (`a.paused = !b.paused`, what
+    `one_round_settles` gives) exactly one requests the notification; no check runs and the authority stays. -/
+theorem pending_notification_requested_once (c : ObjCfg) (a b : Obj) :
+    (a.paused = true → fireObj c a = a) ∧
+    (c.kind = .checkable → c.active = true → a.paused = (!b.paused) →
+      (fireObj c a).reqs + (fireObj c b).reqs = a.reqs + b.reqs + 1) ∧
+    (fireObj c a).paused = a.paused ∧ (fireObj c a).execs = a.execs := by
+  unfold fireObj
+  refine ⟨?_, ?_, ?_, ?_⟩
+  · intro hp; simp [hp]
+  · intro hk ha hab
+    cases hb : b.paused <;> simp [hk, ha, hab, hb] <;> omega
+  · split <;> rfl
+  · split <;> rfl
+
+
+example : let p0 := step .pair [0x61] [0x62] exCfg (step .pair [0x61] [0x62] exCfg
+      (step .pair [0x61] [0x62] exCfg (step .pair [0x61] [0x62] exCfg
+        (step .pair [0x61] [0x62] exCfg (step .pair [0x61] [0x62] exCfg (initPair exCfg) (.link .A 0 true)) (.link .B 0 true))
+        (.upd .A 7)) (.upd .B 9)) (.create .A)) (.create .B)
+    let p1 := step .pair [0x61] [0x62] exCfg (step .pair [0x61] [0x62] exCfg p0 (.upd .A 20)) (.upd .B 21)
+    p0.a.obj.paused = true ∧ p0.b.obj.paused = true ∧ p1.a.obj = ob true 0 0 ∧ p1.b.obj = ob false 0 1 := by decide
+
+example : fireObj { name := [0x68], runOnce := true, active := true, kind := .checkable } (ob false 0 1)
+    = { paused := false, pauses := 0, resumes := 1, reqs := 1 } ∧
+    fireObj { name := [0x68], runOnce := true, active := true, kind := .checkable } (ob true 0 0) = ob true 0 0 := by decide
+
+/-- The specification rejects a trace in which the member that is paused for a checkable requests the pending notification … -/
+example :
+    specTrace .pair { name := [0x68], runOnce := true, active := true, kind := .checkable }
+      (specInit { name := [0x68], runOnce := true, active := true, kind := .checkable })
+      [(.boot .A 1000 false, ob true 0 0, ob true 0 0),
+       (.fire .A, { paused := true, pauses := 0, resumes := 0, reqs := 1 }, ob true 0 0)]
+      = some .pausedNodeIsSilent := by decide
+
+/-- … one in which a runtime-created object is active before any authority run has decided about it … -/
+example :
+    specTrace .pair exCfg (specInit exCfg)
+      [(.boot .A 1000 false, ob true 0 0, ob true 0 0), (.create .A, ob false 0 1, ob true 0 0)]
+      = some .freshAfterBoot := by decide
+
+/-- … and one in which an object created after the first authority run stays paused on a member that is alone after the grace period
+    (an authority run that only remembers that the set of endpoints has not changed). -/
+example :
+    specTrace .pair exCfg (specInit exCfg)
+      [(.boot .A 1000 false, ob true 0 0, ob true 0 0), (.upd .A 1040, ob false 0 1, ob true 0 0),
+       (.create .A, ob true 0 0, ob true 0 0), (.upd .A 1050, ob true 0 0, ob true 0 0)]
+      = some .aloneAllActive := by decide
+
+/-- The node-level events the driver replays next to the real nodes are the per-object functions of the two-member system applied to
+    the addressed object and nothing else. -/
+theorem node_create_fire_pointwise (cfgs : List ObjCfg) (n : Node) (i j : Nat) (c : ObjCfg) (o : Obj)
+    (hc : cfgs[j]? = some c) (ho : n.objs[j]? = some o) :
+    (n.create cfgs i).objs[j]? = some (if j == i then created c else o) ∧
+    (n.fire cfgs i).objs[j]? = some (if j == i then fireObj c o else o) := by
+  constructor
+  · simpa [Node.create] using atList_getElem (fun c _ => created c) i cfgs 0 n.objs j c o hc ho
+  · simpa [Node.fire] using atList_getElem fireObj i cfgs 0 n.objs j c o hc ho
+
 /-- The node-level run is the per-object verdict applied to every object (the loop of :56-81). -/
 theorem node_update_pointwise (cfgs : List ObjCfg) (n : Node) (now : Int) (i : Nat) (c : ObjCfg) (o : Obj)
     (hc : cfgs[i]? = some c) (ho : n.objs[i]? = some o) :
